@@ -215,6 +215,7 @@ impl Stats {
             evals.insert(p.to_string(), AtomicU64::new(0));
         }
         evals.insert("NFA".to_string(), AtomicU64::new(0));
+        evals.insert("DA".to_string(), AtomicU64::new(0));
         Stats { evals, failures: Mutex::new(vec![]), automata: AtomicU64::new(0), distinct: Mutex::new(BTreeSet::new()) }
     }
     fn tick(&self, p: &str) {
@@ -576,6 +577,11 @@ fn da_contract<L: Copy + Ord + std::fmt::Debug>(d: &DaGen, len_multiple: usize, 
     Ok(())
 }
 
+/// properties whose chain contains the assumed DA-stage contract
+fn da_props(cx: &Ctx) -> bool {
+    ["C01", "C02", "C03", "C04", "C05", "C06", "C07", "C08", "C11", "C13", "C15"].iter().any(|p| cx.on(p))
+}
+
 fn da_gen_bw(v: &DaViewBw) -> DaGen { DaGen { base: v.base.clone(), fail: v.fail.clone(), opos: v.opos.clone(), outputs: v.outputs.clone(), leftmost: v.leftmost } }
 fn da_gen_cw(v: &DaViewCw) -> DaGen { DaGen { base: v.base.clone(), fail: v.fail.clone(), opos: v.opos.clone(), outputs: v.outputs.clone(), leftmost: v.leftmost } }
 
@@ -614,7 +620,7 @@ fn check_set(cx: &Ctx, pats: &[Vec<u8>], vals: &[u32], kind: MatchKind, nfbs: &[
     let st = cx.st;
     let nfb0 = nfbs[0];
     // --- NFA stage contract (assumed by the Verus chain) ---
-    let want_nfa = cx.on("C07") || cx.on("C10") || cx.on("C11") || cx.on("C13") || cx.on("C15") || cx.on("C01") || cx.on("C03") || cx.on("C04");
+    let want_nfa = true;
     let bytes_pv: Vec<(Vec<u8>, u32)> = pats.iter().cloned().zip(vals.iter().copied()).collect();
     let nfa_b = if want_nfa { catch_unwind(AssertUnwindSafe(|| run_nfa_stage::<u8>(&bytes_pv, kind))).ok() } else { None };
     if want_nfa {
@@ -654,14 +660,15 @@ fn check_set(cx: &Ctx, pats: &[Vec<u8>], vals: &[u32], kind: MatchKind, nfbs: &[
         if let Some(p) = &bw {
             let view = da_view_bw(p);
             { let mut g = st.distinct.lock().unwrap(); let mut key = vec![]; for i in 0..view.base.len() { key.extend_from_slice(&view.base[i].to_le_bytes()); key.push(view.check[i]); key.extend_from_slice(&view.fail[i].to_le_bytes()); } g.insert(hash64(&key)); }
-            if cx.on("C07") || cx.on("C11") || cx.on("C13") || cx.on("C15") {
+            if da_props(cx) {
                 if let Some(Some(nv)) = nfa_b.as_ref().map(|r| r.view.as_ref()) {
                     let d = da_gen_bw(&view);
                     let labels: Vec<u8> = (0..=255u8).collect();
                     let r = da_contract::<u8>(&d, 256, &|s, c| { if view.base[s] == 0 { None } else { let x = (view.base[s] ^ *c as u32) as usize; if x < view.base.len() && view.check[x] == *c { Some(x) } else { None } } }, nv, view.num_states, &labels);
+                    st.tick("DA");
                     for pr in ["C07", "C11", "C13", "C15"] { if cx.on(pr) { st.tick(pr); } }
                     if let Err(e) = r {
-                        let pr = if e.starts_with("num_states") { "C15" } else { "C07" };
+                        let pr = if e.starts_with("num_states") { "C15" } else { "DA" };
                         st.fail(mk_fail(pr, "da_safe/da_ranked/encodes on the built array", "bytewise", kind, nfb, pats, vals, &[], "holds".into(), e));
                     }
                 }
@@ -690,7 +697,7 @@ fn check_set(cx: &Ctx, pats: &[Vec<u8>], vals: &[u32], kind: MatchKind, nfbs: &[
         }
         if let Some(c) = &cw {
             let view = da_view_cw(c);
-            if cx.on("C07") || cx.on("C11") || cx.on("C13") || cx.on("C15") {
+            if da_props(cx) {
                 if let Some(Some(nv)) = nfa_c.as_ref().map(|r| r.view.as_ref()) {
                     let d = da_gen_cw(&view);
                     // block length: smallest power of two >= max(alphabet_size, 2)
@@ -703,7 +710,7 @@ fn check_set(cx: &Ctx, pats: &[Vec<u8>], vals: &[u32], kind: MatchKind, nfbs: &[
                     if codes.iter().enumerate().any(|(i, &k)| k != i as u32) || codes.len() as u32 != view.alphabet_size { mapper_ok = Err("mapper: codes are not a bijection onto 0..alphabet_size".into()); }
                     let r = mapper_ok.and_then(|_| da_contract::<char>(&d, bl, &|s, ch| { match code(ch) { None => None, Some(k) => { if view.base[s] == 0 { None } else { let x = (view.base[s] ^ k) as usize; if x < view.base.len() && view.check[x] == s as u32 { Some(x) } else { None } } } } }, nv, view.num_states, &probe));
                     if let Err(e) = r {
-                        let pr = if e.starts_with("num_states") { "C15" } else { "C07" };
+                        let pr = if e.starts_with("num_states") { "C15" } else { "DA" };
                         st.fail(mk_fail(pr, "da_safe/da_ranked/encodes on the built array", "charwise", kind, nfb, pats, vals, &[], "holds".into(), e));
                     }
                 }
@@ -936,6 +943,15 @@ fn run_small(cx: &Ctx, alpha: &[Vec<u8>], foreign: &[u8], max_pat_len: usize, ma
             }
         }
     }
+    // prefix chains of three with one repeat in every position (interacts with leftmost-first skipping)
+    for s in seqs.iter().filter(|s| s.len() == 3) {
+        let base: Vec<Vec<u8>> = s.iter().map(|&i| strings[i].clone()).collect();
+        let chainy = (0..3).any(|i| (0..3).any(|j| i != j && base[j].len() > base[i].len() && base[j].starts_with(&base[i])));
+        if !chainy { continue; }
+        for kind in KINDS {
+            for pos in 0..=base.len() { for r in 0..base.len() { let mut d = base.clone(); d.insert(pos, base[r].clone()); check_accept(cx, &d, kind, utf8); } }
+        }
+    }
     for kind in KINDS { check_accept(cx, &[], kind, utf8); }
     // prefix-chains with a repeat (the shape that LeftmostFirst shadowing interacts with)
     for a in &strings { for b in &strings { if b.len() > a.len() && b.starts_with(a) { for kind in KINDS {
@@ -979,6 +995,80 @@ fn run_wide(cx: &Ctx, seed: u64, sets: usize, threads: usize) {
     });
 }
 
+/// interesting-byte family: {[x], [y, z]} and {[x, w], [y, z]} over bytes that interact with CHECK
+/// sanitising (0x00, 0x01, 0xff, values near block boundaries); the encodes twin probes all 256 labels.
+fn run_bytes_family(cx: &Ctx, threads: usize, thorough: bool) {
+    let ib: Vec<u8> = if thorough { vec![0, 1, 2, 3, 4, 0x7f, 0x80, 0x81, 0xfb, 0xfc, 0xfd, 0xfe, 0xff, b'a', b'b'] } else { vec![0, 1, 2, 3, 0x80, 0xfc, 0xfd, 0xfe, 0xff, b'a'] };
+    let mut sets: Vec<Vec<Vec<u8>>> = vec![];
+    for &x in &ib { for &y in &ib { for &z in &ib {
+        if x != y { sets.push(vec![vec![x], vec![y, z]]); sets.push(vec![vec![y, z], vec![x]]); }
+        sets.push(vec![vec![x, z], vec![x, y, z]]);
+    } } }
+    let chunk = (sets.len() + threads - 1) / threads;
+    std::thread::scope(|sc| {
+        for part in sets.chunks(chunk.max(1)) {
+            sc.spawn(move || {
+                for pats in part {
+                    if pats[0] == pats[1] { continue; }
+                    let vals: Vec<u32> = vec![5, 9];
+                    let mut hays: Vec<Vec<u8>> = vec![];
+                    for p in pats { let mut h = p.clone(); h.push(0); hays.push(h); let mut h2 = vec![p[0]]; h2.extend_from_slice(&pats[0]); hays.push(h2); }
+                    for kind in KINDS { check_set(cx, pats, &vals, kind, &[16, 1], &hays, false); }
+                }
+            });
+        }
+    });
+}
+
+/// dense fan-out family: a few prefixes each followed by almost every byte, so that states claim whole
+/// 256-slot blocks with one or two holes; small num_free_blocks => blocks are dropped with holes in them.
+fn run_fanout_family(cx: &Ctx, seed: u64, threads: usize, thorough: bool) {
+    let ranges: Vec<(u16, u16, Option<u8>)> = vec![(1, 255, None), (0, 254, None), (0, 255, Some(0)), (0, 255, Some(0xff)), (2, 255, None), (0, 255, Some(1)), (0, 255, None), (0, 253, None), (1, 254, None)];
+    let heads: Vec<Vec<u8>> = vec![vec![0], vec![1], vec![b'b'], vec![b'c'], vec![0xff], vec![b'b', 0], vec![0xfe]];
+    let mut sets: Vec<Vec<Vec<u8>>> = vec![];
+    let mut rng = Rng(seed.wrapping_mul(31).wrapping_add(17) | 1);
+    let n = if thorough { 160 } else { 48 };
+    // the systematic part: one short pattern + two or three fan-out states, every range for the first two
+    for r1 in 0..ranges.len() { for r2 in 0..ranges.len() {
+        if !thorough && (r1 * ranges.len() + r2) % 3 != (seed % 3) as usize { continue; }
+        let mut pats: Vec<Vec<u8>> = vec![vec![0]];
+        for (h, r) in [(vec![b'b'], r1), (vec![b'c'], r2)] {
+            let (lo, hi, hole) = ranges[r];
+            for x in lo..=hi { if Some(x as u8) != hole { let mut p = h.clone(); p.push(x as u8); pats.push(p); } }
+        }
+        sets.push(pats);
+    } }
+    for _ in 0..n {
+        let k = 2 + rng.below(3) as usize;
+        let mut pats: Vec<Vec<u8>> = vec![];
+        let mut used: Vec<usize> = vec![];
+        if rng.below(2) == 0 { pats.push(vec![0]); }
+        while used.len() < k { let h = rng.below(heads.len() as u64) as usize; if !used.contains(&h) { used.push(h); } }
+        for &h in &used {
+            let (lo, hi, hole) = ranges[rng.below(ranges.len() as u64) as usize];
+            for x in lo..=hi { if Some(x as u8) != hole { let mut p = heads[h].clone(); p.push(x as u8); pats.push(p); } }
+        }
+        let set: BTreeSet<Vec<u8>> = pats.iter().cloned().collect();
+        if set.len() != pats.len() { continue; }
+        // drop patterns that are proper prefixes of a head (keeps the set valid for every kind)
+        sets.push(pats);
+    }
+    let chunk = (sets.len() + threads - 1) / threads;
+    std::thread::scope(|sc| {
+        for part in sets.chunks(chunk.max(1)) {
+            sc.spawn(move || {
+                for pats in part {
+                    let vals: Vec<u32> = (0..pats.len() as u32).collect();
+                    let firsts: BTreeSet<u8> = pats.iter().map(|p| p[0]).collect();
+                    let mut hays: Vec<Vec<u8>> = vec![];
+                    for &f in &firsts { for t in [0u8, 1, 0xff, 0xfe] { hays.push(vec![f, t]); hays.push(vec![f, t, f, 0]); } }
+                    for kind in KINDS { check_set(cx, pats, &vals, kind, &[16, 1, 2, 3], &hays, false); }
+                }
+            });
+        }
+    });
+}
+
 fn replay(path: &str) -> i32 {
     let text = std::fs::read_to_string(path).expect("replay file");
     // tiny extractor for the fields we wrote ourselves
@@ -992,7 +1082,7 @@ fn replay(path: &str) -> i32 {
     let utf8 = pats.iter().all(|p| std::str::from_utf8(p).is_ok());
     let st = Stats::new();
     let mut props = BTreeSet::new();
-    props.insert(if prop == "NFA" { "C07".to_string() } else { prop.clone() });
+    props.insert(if prop == "NFA" || prop == "DA" { "C07".to_string() } else { prop.clone() });
     let cx = Ctx { st: &st, props: &props };
     println!("replaying {} on the real code: kind={:?} nfb={} patterns={:?} haystack={:?}", prop, kind, nfb, pats.iter().map(|p| String::from_utf8_lossy(p).to_string()).collect::<Vec<_>>(), String::from_utf8_lossy(&hay));
     if prop == "C10" && field("clause").starts_with("accepts") { check_accept(&cx, &pats, kind, utf8); }
@@ -1044,12 +1134,16 @@ fn main() {
         run_small(&cx, &a4, b"c", 4, 3, 7, true, &nfbs, threads, Some((seed, 4)));
         run_small(&cx, &a3, "ß".as_bytes(), 2, 3, 4, true, &nfbs, threads, Some((seed, 2)));
         run_wide(&cx, seed, 64, threads);
+        run_bytes_family(&cx, threads, true);
+        run_fanout_family(&cx, seed, threads, true);
     } else {
         run_small(&cx, &a1, &[0x02], 3, 3, 6, false, &nfbs, threads, Some((seed, 3)));
         run_small(&cx, &a4, b"c", 3, 3, 6, true, &nfbs, threads, Some((seed, 3)));
         run_small(&cx, &a2, &[0x00], 2, 3, 5, false, &nfbs, threads, None);
         run_small(&cx, &a3, "ß".as_bytes(), 2, 2, 3, true, &nfbs, threads, None);
         run_wide(&cx, seed, 16, threads);
+        run_bytes_family(&cx, threads, false);
+        run_fanout_family(&cx, seed, threads, false);
     }
     check_conversion(&cx);
     let vt_pats = vec![b(b"ab"), b(b"b"), b(b"abc"), b(b"c"), b("é".as_bytes())];
